@@ -356,7 +356,7 @@ def required_labels(tier):
 
 
 def phases(tier, seed):
-    n = 3200 if tier == 'quick' else 32000
+    n = 3200 if tier == 'quick' else 150000
     return [
         Enum('all-positions', lambda: iter_cases(tier), exhaustive=True,
              note='every module position of all 44 symbol sizes x border x scale, plain and verbose iteration'),
